@@ -82,8 +82,12 @@ def check_vecrot(r) -> list[Fail]:
         return []
     kw = {} if r["tol"] is None else {"tol": r["tol"]}
     np.random.seed(r["npseed"])
+    v1g, v2g = v1.copy(), v2.copy()
     R = np.asarray(rotation_matrix_from_vectors(v1, v2, **kw), dtype=float)
     fails = []
+    if not (np.array_equal(v1, v1g) and np.array_equal(v2, v2g)):
+        fails.append(Fail("vecrot:callers-vectors-overwritten", f"v1 {v1g}->{v1}, v2 {v2g}->{v2}"))
+        v1, v2 = v1g, v2g
     cls = mode if mode != "anti" else ("anti_exact" if r["eps"] == 0 else f"anti_eps~1e{int(math.floor(math.log10(r['eps'])))}")
     if R.shape != (3, 3) or not np.all(np.isfinite(R)):
         return [Fail(f"vecrot:not-a-finite-3x3:{mode}", f"v1={v1} v2={v2}: {R}")]
@@ -121,9 +125,15 @@ def check_axisrot(r) -> list[Fail]:
 
     ax = np.array(r["axis"], dtype=float)
     th = r["angle"]
+    ax_given = ax.copy()
     R = np.asarray(rotation_matrix_from_axis(ax, th), dtype=float)
-    a = _unit(ax)
     fails = []
+    if not np.array_equal(ax, ax_given):
+        # the caller's axis is typically a live row of coordinates (an atom position, a bond vector view): building the matrix must not
+        # move it - otherwise "that axis" is gone and the molecule is distorted before the rotation is even applied
+        fails.append(Fail("axisrot:callers-axis-array-overwritten", f"axis {ax_given} became {ax}"))
+        ax = ax_given
+    a = _unit(ax)
     if np.max(np.abs(R.T @ R - np.eye(3))) > 1e-9:
         fails.append(Fail("axisrot:not-orthogonal", f"axis={ax} angle={th}"))
     if abs(np.linalg.det(R) - 1) > 1e-9:
